@@ -36,7 +36,7 @@ STUBS = ['FakeSocket (recv returns the scripted segments)',
 ASSUMPTIONS = ['recv(4096) never splits a segment (streams < 4096 bytes)']
 CELL_BUDGET_S = {'quick': 240, 'thorough': 2400}
 SAMPLE_P = 0.02
-MAX_WITNESSES = 6
+MAX_WITNESSES = 10
 MAX_DECISIONS = 60000
 
 
